@@ -217,6 +217,16 @@ func (tr *Tree) Missing() []*File {
 	return out
 }
 
+// DescRecordPath is the record path with the random parts of the temporary directory names replaced, so that the
+// description of a case does not change from run to run.
+func (tr *Tree) DescRecordPath() string {
+	p := strings.Replace(tr.RecordPath, tr.Base, "$BASE", 1)
+	if tr.relRoot != "" {
+		p = strings.Replace(p, filepath.Base(tr.relRoot), "c06rel-N", 1)
+	}
+	return p
+}
+
 // Remove deletes the tree.
 func (tr *Tree) Remove() {
 	os.RemoveAll(tr.Base) //nolint:errcheck
